@@ -210,12 +210,10 @@ def scopeThen (r : Out × Slot × St) (st : St) (cont : Bool) (s : Slot)
   | .err l => if cont then k s { st1 with ptrs := st.ptrs } else (.err l, s, st1)
   | .panic => (.panic, s, st1)
 
-/-- `Drop` of the map access: the lazily created guard (if any) restores what it saved — unless leaked -/
-def dropMa (leak : Bool) (s : Slot) (st : St) : St :=
-  if leak then st else
-  match s with
-  | some prev => { st with fallback := prev }
-  | none => st
+/-- end of a map access. The map access no longer OWNS a guard (fix: it points the cell at each key inside the
+scope of the container's guard, which restores the outer value): dropping it — or leaking it — leaves the cell
+as it is. (`leak` and the slot are kept in the program syntax; they no longer matter.) -/
+def dropMa (_leak : Bool) (_s : Slot) (st : St) : St := st
 
 def exec : Prog → Slot → St → Out × Slot × St
   | .done, s, st => (.ok, s, st)
@@ -330,7 +328,7 @@ def tight : Bool → Prog → Bool
   | ko, .strong _ b k => tight false b && tight ko k
   | ko, .weak _ b k => tight false b && tight ko k
   | ko, .guard _ _ k => tight ko k
-  | ko, .ma leak b k => !leak && tight true b && tight ko k
+  | _, .ma _ _ _ => false   -- a map access does not restore the cell itself: it has to sit in a guard body (it does: `deserialize_map`)
   | ko, .key _ k => ko && tight ko k
   | _, .serr => true
   | _, .err _ => true
